@@ -6,6 +6,7 @@ import (
 	ejson "encoding/json"
 	"fmt"
 	"testing"
+	"time"
 
 	"pgregory.net/rapid"
 )
@@ -40,6 +41,8 @@ type c14Held struct {
 
 func c14Check(c c14Case) vfResult {
 	var r vfResult
+	// a history that blocks forever (e.g. a lock that was never released) is a failure
+	defer vfWatchdog("C14", "machine", c, 40*time.Second)()
 	vfTreeSnapshot()
 	vfTreeRestore()
 	defer vfTreeRestore()
@@ -145,6 +148,16 @@ func c14Check(c c14Case) vfResult {
 				}
 				flags["extend-called-on-a-returned-value"] = true
 			}
+		case "readerr":
+			// a detection that fails while reading must leave the registry usable
+			SetLimit(st.Lim)
+			m, err := DetectReader(&c02FailReader{data: []byte(st.X), at: 0})
+			SetLimit(defaultLimit)
+			if err == nil || m == nil {
+				r.Err = fmt.Errorf("step %d: failing reader returned (%v, %v)", si, m, err)
+				return r
+			}
+			flags["failing-reader-before-extend"] = true
 		case "probe":
 			x := []byte(st.X)
 			SetLimit(st.Lim)
@@ -227,6 +240,11 @@ func c14Gen(t *rapid.T) c14Case {
 	for i := 0; i < ns; i++ {
 		if rapid.IntRange(0, 9).Draw(t, "onres") == 0 {
 			c.Steps = append(c.Steps, c14Step{Op: "extend-result"})
+			continue
+		}
+		if rapid.IntRange(0, 11).Draw(t, "rerr") == 0 {
+			x := c.Pool[rapid.IntRange(0, len(c.Pool)-1).Draw(t, "pi")]
+			c.Steps = append(c.Steps, c14Step{Op: "readerr", X: x, Lim: rapid.SampledFrom([]uint32{0, 0, 16, 3072}).Draw(t, "rlim")})
 			continue
 		}
 		if rapid.IntRange(0, 3).Draw(t, "op") > 0 {
